@@ -254,7 +254,7 @@ func (p *Pool) feed(pr *proc, inputs []Input, results []Result, pos, hi int) int
 		w.Flush()
 	}(pos, hi)
 	for i := pos; i < hi; i++ {
-		r, err := pr.readResult(200 * time.Second)
+		r, err := pr.readResult(700 * time.Second)
 		if err != nil {
 			// the process died (panic in a scanner goroutine, fatal error) or is stuck
 			stuck := strings.Contains(err.Error(), "timeout")
